@@ -42,6 +42,19 @@ pub fn name_of(n: u128) -> String {
   letters.iter().rev().collect()
 }
 
+/// successor of a name in name order (A..Z, AA..): the name of the next integer, with no bound
+pub fn name_succ(name: &mut Vec<u8>) {
+  for i in (0..name.len()).rev() {
+    if name[i] == b'Z' {
+      name[i] = b'A';
+    } else {
+      name[i] += 1;
+      return;
+    }
+  }
+  name.insert(0, b'A');
+}
+
 /// printed form of a spaced rune, computed independently of the implementation
 pub fn spaced_name_of(n: u128, spacers: u32) -> String {
   let name: Vec<char> = name_of(n).chars().collect();
@@ -132,6 +145,44 @@ pub fn gen(rng: &mut Rng, tier: &str) -> Vec<Line> {
   v.push(chars_line(1, "BCGDENLQRQWDSLRUGSNLBTMFIJAV"));
   v.push(chars_line(1, "BCGDENLQRQWDSLRUGSNLBTMFIJAW"));
   v.push(chars_line(1, "BCGDENLQRQWDSLRUGSNLBTMFIJAU"));
+  // the overflow frontier of the parser, taken systematically: the 1500 names that follow
+  // u128::MAX in name order (the first ones are out of range by 1, 2, ...), and for every split
+  // point the names whose prefix value sits at floor(MAX / 26^l) + d (l trailing letters, d around 0):
+  // these are the inputs on which each checked step of from_str is the first one to overflow
+  // (found missing by seeded change r4-C32-1: an off-by-one bound on the 27-letter prefix)
+  {
+    let mut name: Vec<u8> = name_of(u128::MAX).into_bytes();
+    for k in 0..1500 {
+      name_succ(&mut name);
+      let s = String::from_utf8(name.clone()).unwrap();
+      v.push(chars_line(1, &s));
+      if k < 200 {
+        let mut t: Vec<char> = s.chars().collect();
+        t.insert(1 + rng.below(t.len() as u64 - 1) as usize, if k % 2 == 0 { '.' } else { '•' });
+        v.push(chars_line(3, &t.iter().collect::<String>()));
+      }
+    }
+    let mut q = u128::MAX;
+    for l in 1..=27usize {
+      q /= 26;
+      for d in -3i32..=3 {
+        let Some(pv) = (if d < 0 { q.checked_sub((-d) as u128) } else { q.checked_add(d as u128) }) else { continue };
+        let prefix = name_of(pv);
+        let suffixes: Vec<String> = if l == 1 {
+          (0..26u8).map(|c| ((b'A' + c) as char).to_string()).collect()
+        } else {
+          let mut w = vec!["A".repeat(l), "Z".repeat(l), format!("{}A", "Z".repeat(l - 1)), format!("{}Z", "A".repeat(l - 1))];
+          for _ in 0..4 {
+            w.push(random_name(rng, l));
+          }
+          w
+        };
+        for suf in suffixes {
+          v.push(chars_line(1, &format!("{prefix}{suf}")));
+        }
+      }
+    }
+  }
   for len in 1..=30usize {
     for _ in 0..(n_rand / 60).max(20) {
       v.push(chars_line(1, &random_name(rng, len)));
